@@ -27,7 +27,7 @@ ASSUMPTIONS = ['the reference model shares CPython list/dict/Decimal with the sy
 REAL = ['smartquery.* (lexer, PLY parser, evaluator, builtins)', 'decimal', 'copy']
 STUB = ['host (owner of the names mapping)']
 REACH_PROBES = ('failed_then_judged', 'lang_error', 'other_error', 'nested_target', 'equal_typed_key_pair',
-                'negative_index', 'fractional_index', 'write_then_read_same_key', 'repeated_source', 'cache_hit', 'inner_blank_sibling_source')
+                'negative_index', 'fractional_index', 'write_then_read_same_key', 'repeated_source', 'cache_hit', 'inner_blank_sibling_source', 'unjudged_activity_between_calls')
 
 CONTAINERS = ['l', 'd', 'n', 'e', 'm']
 
@@ -267,8 +267,11 @@ def generate(seed, tier):
     ops = []
     last_write = None
     for _ in range(n_ops):
-        if ops and ro.random() < 0.15:
-            prev = ro.choice(ops)       # the very same source text again (a cached tree is evaluated twice)
+        if S['faults'].random() < 0.08:
+            ops.append(history.noise_op(S['faults']))      # unjudged activity on the same parser between judged calls
+        evals = [o for o in ops if o['op'] == 'eval']
+        if evals and ro.random() < 0.15:
+            prev = ro.choice(evals)       # the very same source text again (a cached tree is evaluated twice)
             prog, probes = prev['prog'], ['repeated_source']
             op = {'op': 'eval', 'prog': prog, 'style': prev['style'], 'probes': probes}
             if ro.random() < 0.5:
@@ -296,8 +299,13 @@ def generate(seed, tier):
 def execute(case, ctx):
     W = history.World(case['world'])
     failed_before = False
+    noise = {}
     for step, op in enumerate(case['ops']):
         ctx.step = step
+        if op['op'] == 'noise':
+            history.do_noise(W.parser, op, noise, ctx)
+            ctx.probe('unjudged_activity_between_calls')
+            continue
         ctx.op_kind(_kind_of(op['prog']))
         judged, rout, mout = W.eval_and_judge(ctx, op, step)
         if not judged:
